@@ -63,6 +63,10 @@ func GenListCase(level int) func(t *rapid.T) ListCase {
 		for i := 0; i < n; i++ {
 			c.Entries = append(c.Entries, EntrySpec{NL: lens.Draw(t, "nl"), UL: lens.Draw(t, "ul")})
 		}
+		if n > 0 && rapid.IntRange(0, 5).Draw(t, "huge") == 0 {
+			// one entry far larger than any sensible fixed buffer (a stat record may take up to 65535 bytes)
+			c.Entries[rapid.IntRange(0, n-1).Draw(t, "hugeat")].NL = rapid.SampledFrom([]int{8150, 8200, 9000, 20000, 60000}).Draw(t, "hugelen")
+		}
 		c.Batches = rapid.SliceOfN(rapid.IntRange(1, 9), 1, 4).Draw(t, "batches")
 		c.End = rapid.SampledFrom([]string{"nil", "empty", "eof"}).Draw(t, "end")
 		c.Reads = rapid.SliceOfN(rapid.Custom(func(t *rapid.T) ReadSpec {
